@@ -217,7 +217,8 @@ const (
 	itTag
 )
 
-// c11Gattr: a general piece inside a tag (Coq gattr): vk 0 = name only, 1 = name=unquoted, 2 = name=quoted
+// c11Gattr: a general piece inside a tag (Coq gattr): vk 0 = name only, 1 = name=unquoted, 2 = name=quoted,
+// 3 = name=quoted but cut by the ?> of the processing instruction (no closing quote)
 type c11Gattr struct {
 	lead, name string
 	vk         int
@@ -373,6 +374,10 @@ func (b *xbuilder) addCDATA() {
 // addPI: a processing instruction whose content is a list of pseudo-attributes (as in the prolog).
 func (b *xbuilder) addPI(prolog bool) {
 	r := b.r
+	if !prolog && r.Chance(1, 3) { // a processing instruction with free-form content ('>' included)
+		b.items = append(b.items, c11GenTagItem(r, true, true))
+		return
+	}
 	it := xitem{kind: itPI, s: genXMLName(r)}
 	if strings.EqualFold(it.s, "xml") {
 		it.s = "xmlx"
@@ -386,7 +391,9 @@ func (b *xbuilder) addPI(prolog bool) {
 	} else {
 		names := map[string]bool{}
 		for k := r.Intn(3); k > 0; k-- {
-			it.attrs = append(it.attrs, genXMLAttr(r, names))
+			a := genXMLAttr(r, names)
+			a.val = strings.ReplaceAll(a.val, "?>", "? >") // a processing instruction ends at its first ?>
+			it.attrs = append(it.attrs, a)
 		}
 	}
 	it.ws = genXMLWS(r, false)
@@ -707,6 +714,10 @@ func buildDoc(items []xitem) *xdoc {
 					raw := g.lead + g.name + g.w1 + "=" + g.w2 + g.val
 					d.src = append(d.src, raw...)
 					tok(xtok{tt: xml.AttributeToken, data: raw, text: g.name, attr: g.val})
+				case 3:
+					q := string(g.q)
+					d.src = append(d.src, g.lead+g.name+g.w1+"="+g.w2+q+g.val...)
+					tok(xtok{tt: xml.AttributeToken, data: g.lead + g.name + g.w1 + "=" + g.w2 + q + normWS(g.val), text: g.name, attr: q + normWS(g.val)})
 				default:
 					q := string(g.q)
 					d.src = append(d.src, g.lead+g.name+g.w1+"="+g.w2+q+g.val+q...)
@@ -716,7 +727,11 @@ func buildDoc(items []xitem) *xdoc {
 			cl := map[int]string{6: ">", 7: "/>", 8: "?>"}[it.closer]
 			d.src = append(d.src, it.ws+cl...)
 			tok(xtok{tt: xml.TokenType(it.closer), data: cl, textNil: true, attrNil: true})
-			d.feat("general-tag")
+			if it.pi {
+				d.feat("pi-freeform")
+			} else {
+				d.feat("general-tag")
+			}
 		}
 	}
 	d.hasCR = bytes.IndexByte(d.src, '\r') >= 0
@@ -1319,6 +1334,9 @@ func c11HardDocs(r *Rng) []struct {
 		mk("doctype-subset-pi", "", " a [<?p ]?>]", ""),
 		mk("pi-content-gt", "", "", "<?p a>b?>"),
 		mk("pi-content-gt", "", "", "<?p x > y ?>"),
+		mk("pi-content-gt", "", "", "<?php if ($a > $b) { echo 1; } ?>"),
+		mk("pi-content-quote", "", "", "<?p a=\"b?>"),
+		mk("pi-content-quote", "", "", "<?p x ='?>"),
 		{"attr-crlf", buildDoc([]xitem{{kind: itStart, s: "a", attrs: []xattr{{lead: " ", name: "b", q: '"', val: "x\r\ny"}}, void: true}})},
 	}
 }
@@ -1337,8 +1355,12 @@ func c11WellFormedOracle(r *Rng, tier string, rep *Report) {
 			// StartTagClose / Text before that
 			steps, _, _, pan := xmlRun(h.d.src, 0)
 			bad := pan != nil || len(steps) == 0 || steps[0].tt != xml.StartTagPIToken
+			first := bytes.Index(h.d.src, []byte("?>"))
 			for _, st := range steps {
 				if st.tt == xml.StartTagClosePIToken {
+					if st.hi != first+2 { // XML 1.0: the instruction ends at the first "?>"
+						bad = true
+					}
 					break
 				}
 				if st.tt != xml.StartTagPIToken && st.tt != xml.AttributeToken {
@@ -1347,7 +1369,7 @@ func c11WellFormedOracle(r *Rng, tier string, rep *Report) {
 				}
 			}
 			if bad {
-				rep.Violate("hard-"+h.cat, fmt.Sprintf("processing instruction is not bracketed by StartTagPI/StartTagClosePI on %q", h.d.src), map[string]interface{}{"input": string(h.d.src)})
+				rep.Violate("hard-"+h.cat, fmt.Sprintf("processing instruction is not StartTagPI, Attribute*, StartTagClosePI ending at its first \"?>\" on %q", h.d.src), map[string]interface{}{"input": string(h.d.src)})
 			}
 			rep.Eval("hard:"+string(h.d.src), true, "hard")
 			continue
